@@ -16,6 +16,7 @@ _ext_err = struct.Struct("IbbbbII")
 
 LOCAL_UNICAST = "2001:db8::100"
 LOCAL_MCAST = "ff02::fd"
+LOCAL_MCAST4 = "::ffff:224.0.1.187"  # IPv4 "All CoAP Nodes" as the dual-stack socket reports it
 
 
 def sockaddr(n, port=5683):
